@@ -14,7 +14,7 @@ META = {
 
 def to_job(r, strat, extra=None):
     s = r["scn"]
-    cfg = dict(s["cfg"], term="lf")
+    cfg = dict(s["cfg"], term="crlf" if s["o"].get("crlf") else "lf")
     scn = {"inp": list(rr.sym_bytes(s["inp"])), "cfg": cfg, "strat": strat, "path": "slow", "cap0": None, "bin": "none",
            "stopAt": s["stopAt"], "errAt": s["errAt"], "faultAt": 0}
     j = {"scn": scn, "reads": [], "pattern": rr.render(s["u"]), "mopts": s["o"], "multi_line": True}
